@@ -2171,6 +2171,10 @@ def serialize_tensor_into(
                 entry.value = str(v)
     elif isinstance(from_, _core.StringTensor):
         tensor_proto.string_data.extend(from_.string_data())
+    elif from_.dtype == _enums.DataType.STRING:
+        # Other string tensor implementations (e.g. a LazyTensor around a StringTensor) have no
+        # byte form either: take the elements from numpy()
+        tensor_proto.string_data.extend(from_.numpy().flatten().tolist())
     else:
         tensor_proto.raw_data = from_.tobytes()
     _serialize_metadata_props_into(tensor_proto.metadata_props, from_.metadata_props)
